@@ -1,52 +1,194 @@
-import MqttVerif.Conn.Lemmas.Basic
+import MqttVerif.Conn.Lemmas.CloseRecv
+import MqttVerif.Conn.Lemmas.Store3
 /-!
-# C19 — close requests are ordered after the last packet to flush (first instalment)
+# C19 — close requests are ordered after the last packet to flush
 
-Mechanism lemmas about the functions that emit `RequestClose`; the per-call theorems for every
-`Op` are being added on top of these (see DESIGN.md §5 C19).  The monitors `Mon.closeAfterSend`
-/ `Mon.disconnectHasClose` used here are the ones evaluated on every implementation trace.
+For every configuration, every state and every API call (`Op` includes `recv` with arbitrary
+bytes and an arbitrary parser):
+
+* `C19_close_after_send` — in the returned event list no `RequestSendPacket` follows a
+  `RequestClose` (unconditional);
+* `C19_keepalive_timeout_closes` — on an established v3.1.1/v5.0 connection the expiry of
+  either keep-alive timeout yields a `RequestClose`, whatever the peer's Maximum Packet Size;
+* `C19_disconnect_has_close_partial` — every sent DISCONNECT / refusing CONNACK is accompanied
+  by a close request, for every state whose *store* holds only PUBLISH / PUBREL packets
+  (`StoreOk`; in Rust this is the type `GenericStorePacket`).  The unrestricted statement
+  `C19_disconnect_has_close_full` is false in the model (a stored "DISCONNECT" would be resent
+  by `send_stored` without a close): `C19_disconnect_has_close_full_false`.
 -/
-set_option linter.unusedSimpArgs false
-set_option linter.unusedVariables false
 namespace MqttVerif.Conn
 open MqttVerif
 
-/-- v3.1.1 error path: exactly `[close, error]`, in that order -/
-theorem C19_v3_error_shape (c : C) (e : Nat) (h : c.ev = []) :
-    Mon.closeAfterSend (handleV3Error c e).ev = true ∧ Mon.hasClose (handleV3Error c e).ev = true := by
-  simp [handleV3Error_events, h, Mon.closeAfterSend, Mon.hasClose]
+/-- the store holds only PUBLISH and PUBREL packets (`GenericStorePacket`) -/
+def StoreOk (s : St) : Prop := ∀ x ∈ s.store, x.2.kind = .publish ∨ x.2.kind = .pubrel
 
-/-- a sent v5.0 DISCONNECT is followed by the close request, nothing is sent after it -/
-theorem C19_v5_disconnect_then_close (c : C) (p : Pkt) (hs : sizeOk c p = true)
-    (hc : c.s.status = .connected) :
-    ∃ t, (psV5Disconnect c p).ev = c.ev ++ t ++ [.send p none, .close] ∧
-      ∀ e ∈ t, ∃ k, e = .timerCancel k := by
-  obtain ⟨⟨t, ht, hk⟩, _⟩ := cancelTimers_spec { c with s := { c.s with status := .disconnected } }
-  refine ⟨t, ?_, hk⟩
-  simp [psV5Disconnect, hs, hc, ht]
+instance (s : St) : Decidable (StoreOk s) := by unfold StoreOk; infer_instance
 
-/-- fix (finding #17): on an established connection the library-generated DISCONNECT path
-    always ends in a close request — for EVERY Maximum Packet Size of the peer -/
-theorem C19_disconnect_or_close_closes (c : C) (d : Pkt) (h : c.s.status = .connected) :
-    Mon.hasClose (v5DisconnectOrClose c d).ev = true := by
-  unfold v5DisconnectOrClose psV5Disconnect
-  by_cases hs : sizeOk c d = true <;> simp [hs, h, Mon.hasClose]
+theorem quiet_of_storeKind {p : Pkt} (h : p.kind = .publish ∨ p.kind = .pubrel) (r) : quietEv (.send p r) :=
+  CP_quietEv.sendOk (by rcases h with h | h <;> simp [h]) (by rcases h with h | h <;> simp [h]) r
 
-/-- keep-alive timeout on an established v5.0 connection requests a close -/
-theorem C19_keepalive_timeout_closes_v5 (cfg : Cfg) (s : St) (k : Timer)
-    (hk : k = .pingreqRecv ∨ k = .pingrespRecv) (hv : s.ver = 5) (hc : s.status = .connected) :
-    Mon.hasClose (step cfg s (.timer k)).ev = true := by
-  rcases hk with rfl | rfl <;>
-    simp [step, notifyTimerFired, hv, hc, C19_disconnect_or_close_closes]
+/-- C19 (1): within any returned event list no send request follows a close request. -/
+theorem C19_close_after_send (cfg : Cfg) (s : St) (op : Op) :
+    Mon.closeAfterSend (step cfg s op).ev = true :=
+  PF_cas CP_notClose (step_PF CP_notClose cfg s op (fun _ _ => by simp [notClose]))
 
-/-- keep-alive timeout on a v3.1.1 connection: exactly a close request -/
-theorem C19_keepalive_timeout_closes_v3 (cfg : Cfg) (s : St) (k : Timer)
-    (hk : k = .pingreqRecv ∨ k = .pingrespRecv) (hv : s.ver = 4) :
-    (step cfg s (.timer k)).ev = [.close] := by
-  rcases hk with rfl | rfl <;> simp [step, notifyTimerFired, hv]
+/-- shape of the event list of one call, from a state with a well-typed store -/
+theorem step_quiet_or_final (cfg : Cfg) (s : St) (op : Op) (hs : StoreOk s) :
+    PF quietEv (step cfg s op).ev :=
+  step_PF CP_quietEv cfg s op (fun x hx => quiet_of_storeKind (hs x hx) none)
 
-example : ∃ c : C, c.s.status = .connected ∧ sizeOk c (mkV5Disconnect 0x8D) = false :=
-  ⟨{ cfg := ⟨.client, 2⟩, s := { (St.init ⟨.client, 2⟩ 5) with status := .connected, mpsSend := 2 } },
-   rfl, by decide⟩
+/-- C19 (2): every DISCONNECT sent and every CONNACK sent with a failure code is accompanied
+    by a close request in the same event list. -/
+theorem C19_disconnect_has_close_partial (cfg : Cfg) (s : St) (op : Op) (hs : StoreOk s) :
+    Mon.disconnectHasClose (step cfg s op).ev = true :=
+  (step_quiet_or_final cfg s op hs).elim Q_dhc F_dhc
+
+/-- the statement without the store typing -/
+def C19_disconnect_has_close_full : Prop :=
+  ∀ (cfg : Cfg) (s : St) (op : Op), Mon.disconnectHasClose (step cfg s op).ev = true
+
+/-- C19 (3): on an established connection a keep-alive timeout always ends in a close request —
+    for every Maximum Packet Size of the peer (fix of finding #17). -/
+theorem C19_keepalive_timeout_closes (cfg : Cfg) (s : St) (k : Timer)
+    (hk : k = .pingreqRecv ∨ k = .pingrespRecv) (hc : s.status = .connected)
+    (hv : s.ver = 4 ∨ s.ver = 5) :
+    Mon.hasClose (step cfg s (.timer k)).ev = true :=
+  (notifyTimerFired_keepalive_F CP_notClose { cfg := cfg, s := s } k hk hc hv (EvAll_nil _)).2
+
+/-- C19 (4a): lifted to every event list of every operation sequence. -/
+theorem C19_close_after_send_run (cfg : Cfg) (s : St) (ops : List Op) :
+    ∀ evs ∈ runEvents cfg s ops, Mon.closeAfterSend evs = true := by
+  induction ops generalizing s with
+  | nil => simp [runEvents]
+  | cons op rest ih =>
+    intro evs h
+    simp only [runEvents, List.mem_cons] at h
+    rcases h with rfl | h
+    · exact C19_close_after_send cfg s op
+    · exact ih _ evs h
+
+
+/-- C19 (4b), partial: clause (2) along an operation sequence whose intermediate states keep a
+    well-typed store.  (Superseded by `C19_disconnect_has_close_run`, which proves the invariant.) -/
+theorem C19_disconnect_has_close_run_partial (cfg : Cfg) (s : St) (ops : List Op)
+    (hinv : ∀ pre, pre <+: ops → StoreOk (run cfg s pre)) :
+    ∀ evs ∈ runEvents cfg s ops, Mon.disconnectHasClose evs = true := by
+  induction ops generalizing s with
+  | nil => simp [runEvents]
+  | cons op rest ih =>
+    intro evs h
+    simp only [runEvents, List.mem_cons] at h
+    rcases h with rfl | h
+    · exact C19_disconnect_has_close_partial cfg s op (hinv [] (List.nil_prefix))
+    · refine ih _ (fun pre hp => ?_) evs h
+      have := hinv (op :: pre) (by simpa [List.cons_prefix_cons] using hp)
+      simpa [run] using this
+
+/-- operations as the Rust API allows them: restored packets are PUBLISH / PUBREL -/
+def OpOk : Op → Prop
+  | .restorePackets ps => ∀ p ∈ ps, p.kind = .publish ∨ p.kind = .pubrel
+  | _ => True
+
+def C19_disconnect_has_close_run_full : Prop :=
+  ∀ (cfg : Cfg) (s : St) (ops : List Op), StoreOk s → (∀ op ∈ ops, OpOk op) →
+    ∀ evs ∈ runEvents cfg s ops, Mon.disconnectHasClose evs = true
+
+def storeKind (p : Pkt) : Prop := p.kind = .publish ∨ p.kind = .pubrel
+
+theorem StoreOk_iff (s : St) : StoreOk s ↔ SL storeKind s.store := ⟨fun h => ⟨h⟩, fun h => h.h⟩
+
+/-- `StoreOk` is an invariant of every API call whose restored packets are PUBLISH / PUBREL. -/
+theorem step_StoreOk (cfg : Cfg) (s : St) (op : Op) (hs : StoreOk s) (ho : OpOk op) :
+    StoreOk (step cfg s op).s := by
+  rw [StoreOk_iff] at hs ⊢
+  have hK : KPub storeKind := fun _ h => h
+  cases op with
+  | send p => exact send_sl hK _ p hs
+  | recv inp parse => exact recv_sl hK _ inp parse hs
+  | timer k => simpa [step] using hs
+  | closed => exact notifyClosed_sl _ hs
+  | setInterval d => simpa [step] using hs
+  | setFlag f b => cases f <;> exact hs
+  | setRespTimeout ms => exact hs
+  | acquire => exact hs
+  | register id => exact hs
+  | release id => simpa [step, releasePacketId] using hs
+  | erase id => exact eraseStoredPublish_sl _ id hs
+  | restoreHandled ids => exact hs
+  | restorePackets ps => exact restorePackets_sl _ ps ho hs
+
+theorem run_StoreOk (cfg : Cfg) (s : St) (ops : List Op) (hs : StoreOk s) (ho : ∀ op ∈ ops, OpOk op) :
+    StoreOk (run cfg s ops) := by
+  induction ops generalizing s with
+  | nil => exact hs
+  | cons op rest ih =>
+    exact ih _ (step_StoreOk cfg s op hs (ho op List.mem_cons_self))
+      (fun o h => ho o (List.mem_cons_of_mem _ h))
+
+/-- C19 (4b): clause (2) for every event list of every operation sequence from a state with a
+    well-typed store, restored packets being PUBLISH / PUBREL (`GenericStorePacket`). -/
+theorem C19_disconnect_has_close_run : C19_disconnect_has_close_run_full := by
+  intro cfg s ops hs ho
+  induction ops generalizing s with
+  | nil => simp [runEvents]
+  | cons op rest ih =>
+    intro evs h
+    simp only [runEvents, List.mem_cons] at h
+    rcases h with rfl | h
+    · exact C19_disconnect_has_close_partial cfg s op hs
+    · exact ih _ (step_StoreOk cfg s op hs (ho op List.mem_cons_self))
+        (fun o h => ho o (List.mem_cons_of_mem _ h)) evs h
+
+/-- … in particular for every run of a fresh connection object, and both monitors together. -/
+theorem C19_run_from_init (cfg : Cfg) (ver : Nat) (ops : List Op) (ho : ∀ op ∈ ops, OpOk op) :
+    ∀ evs ∈ runEvents cfg (St.init cfg ver) ops,
+      Mon.closeAfterSend evs = true ∧ Mon.disconnectHasClose evs = true :=
+  fun evs h => ⟨C19_close_after_send_run cfg _ ops evs h,
+    C19_disconnect_has_close_run cfg _ ops (by intro x hx; simp [St.init] at hx) ho evs h⟩
+
+/-! ## counterexample to the unrestricted clause (2), and non-vacuity -/
+
+namespace C19ex
+def cfg : Cfg := { role := .server, pw := 2 }
+/-- a state whose store holds a "DISCONNECT" (not constructible in Rust: `GenericStorePacket`) -/
+def sBad : St := { St.init cfg 4 with status := .connecting, store := [(1, { ver := 4, kind := .disconnect })] }
+def opAccept : Op := .send (mkV3Connack 0)
+
+example : (step cfg sBad opAccept).ev =
+    [.send (mkV3Connack 0) none, .send { ver := 4, kind := .disconnect } none] := by decide
+
+/-- a well-typed state: established v5.0 connection, peer limit 2 (below the 3-byte DISCONNECT),
+    one stored QoS 1 PUBLISH -/
+def sGood : St :=
+  { St.init cfg 5 with
+    status := .connected
+    mpsSend := 2
+    recvSet := true
+    store := [(1, { ver := 5, kind := .publish, qos := 1, pid := some 1 })] }
+
+example : StoreOk sGood := by decide
+example : sGood.status = .connected ∧ (sGood.ver = 4 ∨ sGood.ver = 5) := by decide
+/-- the keep-alive timeout closes although the DISCONNECT does not fit -/
+example : (step cfg sGood (.timer .pingreqRecv)).ev = [.close] := by decide
+/-- with room for the DISCONNECT: cancel, DISCONNECT 0x8D, close — in this order -/
+example : (step cfg { sGood with mpsSend := 3 } (.timer .pingrespRecv)).ev =
+    [.timerCancel .pingreqRecv, .send (mkV5Disconnect eKeepAliveTimeout) none, .close] := by decide
+
+/-- a run satisfying the hypotheses of `C19_run_from_init` that restores a packet, connects and
+    is refused: the refusing CONNACK is followed by the close request -/
+def ops : List Op :=
+  [.restorePackets [{ ver := 4, kind := .publish, qos := 1, pid := some 1 }],
+   .recv [0x10, 0] (fun _ _ _ => .error eBadUser)]
+example : ∀ op ∈ ops, OpOk op := by
+  intro op h
+  simp only [ops, List.mem_cons, List.not_mem_nil, or_false] at h
+  rcases h with rfl | rfl <;> simp [OpOk]
+example : runEvents cfg (St.init cfg 4) ops =
+    [[], [.send (mkV3Connack 4) none, .close, .error eBadUser]] := by decide
+end C19ex
+
+theorem C19_disconnect_has_close_full_false : ¬ C19_disconnect_has_close_full := by
+  intro h
+  exact absurd (h C19ex.cfg C19ex.sBad C19ex.opAccept) (by decide)
 
 end MqttVerif.Conn
